@@ -1483,11 +1483,9 @@ class VM:
 
         def lastIndexOf_fn(*args):
             search = args[0] if args else UNDEFINED
-            start = (
-                to_integer(args[1], len(arr._elements) - 1)
-                if len(args) > 1
-                else len(arr._elements) - 1
-            )
+            # The number of arguments decides: lastIndexOf(x, undefined) starts
+            # at index 0, lastIndexOf(x) at the last element
+            start = to_integer(args[1]) if len(args) > 1 else len(arr._elements) - 1
             if start < 0:
                 start = len(arr._elements) + start
             for i in range(min(start, len(arr._elements) - 1), -1, -1):
@@ -2128,6 +2126,8 @@ class VM:
         def lastIndexOf(*args):
             search = to_string(args[0]) if args else "undefined"
             end = to_integer(args[1], len(s)) if len(args) > 1 else len(s)
+            if len(args) > 1 and to_number(args[1]) != to_number(args[1]):
+                end = len(s)  # a position that is not a number means the end
             # The position is clamped to the string (a negative number is not
             # relative to the end, as it would be for Python)
             end = min(max(end, 0), len(s))
@@ -2158,7 +2158,12 @@ class VM:
 
         def split(*args):
             sep = args[0] if args else UNDEFINED
-            limit = to_integer(args[1], -1) if len(args) > 1 else -1
+            # The limit is an unsigned 32-bit number (-1 is 4294967295, and
+            # -Infinity, like NaN, is 0); none, or undefined, is no limit
+            if len(args) > 1 and args[1] is not UNDEFINED:
+                limit = self._to_uint32(args[1])
+            else:
+                limit = -1
 
             if sep is UNDEFINED:
                 parts = [s]
